@@ -8,7 +8,7 @@
     expansion of every corpus declaration on every run; the theorems say what a successful check
     means for all raw values, all arguments, all in-range indices and both build profiles
     ([c] ranges over overflow-checks on/off). *)
-From BB Require Import Bits Expr Sym Spec Validate.
+From BB Require Import Bits Expr Sym Spec Validate Parse ParseCorrect Enum.
 Open Scope N_scope.
 
 (** ** C01 — getter returns exactly the declared bits *)
@@ -82,3 +82,53 @@ Proof. exact seval_sound. Qed.
 Theorem C16_checked_ok_then_unchecked_same : forall e ρ v,
   eval true ρ e = Ok v -> forall c, eval c ρ e = Ok v.
 Proof. exact eval_mode_indep. Qed.
+
+(** ** C07 — bitenum conversions: exact, total, mutually inverse (model of the generated match) *)
+
+Theorem C07_new_returns_the_variant_with_that_discriminant : forall e x name,
+  enum_new e x = NOk name ->
+  exists v, In v (live e) /\ v_name v = name /\ v_discr v = DLitN x.
+Proof. exact C07_new_exact. Qed.
+
+Theorem C07_err_when_no_variant : forall e x,
+  exh_of e <> ExTrue ->
+  (forall v, In v (live e) -> v_discr v <> DLitN x) ->
+  enum_new e x = NErr x.
+Proof. exact C07_err. Qed.
+
+Theorem C07_raw_then_new : forall e v x,
+  NoDup (discrs (live e)) -> In v (live e) -> enum_raw v = Some x ->
+  enum_new e x = NOk (v_name v).
+Proof. exact C07_inverse_1. Qed.
+
+Theorem C07_new_then_raw : forall e x name,
+  enum_new e x = NOk name ->
+  exists v, In v (live e) /\ v_name v = name /\ enum_raw v = Some x.
+Proof. exact C07_inverse_2. Qed.
+
+Theorem C07_never_panics : forall e,
+  wf_enum e -> enum_accept e = true -> NoDup (discrs (en_variants e)) ->
+  forall x, x < 2 ^ en_bits e -> enum_new e x <> NUnreachable.
+Proof. exact C07_total. Qed.
+
+(** ** C09 — the macro's decision (model) is the documented rule, both directions *)
+
+Theorem C09_accept_iff_valid : forall d, accept_decl d = valid_decl d.
+Proof. exact accept_decl_iff_valid. Qed.
+
+Theorem C09_field_accept_iff_valid : forall W f, accept_field W f = valid_field W f.
+Proof. exact accept_field_iff_valid. Qed.
+
+(** ** C10 — bitenum validation *)
+
+Theorem C10_enum_accept_iff_valid : forall e, enum_accept e = valid_enum e.
+Proof. exact C10_accept_iff_valid. Qed.
+
+Theorem C10_exhaustive_claims_are_sound : forall e,
+  wf_enum e -> enum_accept e = true -> exh_of e = ExTrue -> NoDup (discrs (en_variants e)) ->
+  forall x, x < 2 ^ en_bits e -> exists name, enum_new e x = NOk name.
+Proof. exact C10_exhaustive_sound. Qed.
+
+Theorem C10_no_variant_is_unrepresentable : forall e v x,
+  enum_accept e = true -> In v (en_variants e) -> enum_raw v = Some x -> x < 2 ^ en_bits e.
+Proof. exact C10_no_unrepresentable. Qed.
